@@ -19,25 +19,29 @@ PV = [
     ("datetime", [dt.datetime(2020, 1, 2, 3, 4, 5)]), ("url", ["http://x.org/a?b=1&c=2"]), ("person", ["Ünï Cödé <a@b>"]),
     ("date", [dt.date(987, 6, 5)]), ("text", ["first note", "second\nline", "third"]),
     ("string", ["a", "b b", "c", "d", "e", "f", "g", "h", "i", "j", "k", "l"]),
-    ("2-tuple", ["(1;2)", "(3;4)"]), ("3-tuple", ["(a;b;c)"]), ("int", []), (None, []), ("string", ['say "hi"', "it's", "[br]"]), ("string", ["100%", "%%d"]),
+    ("2-tuple", ["(1;2)", "(3;4)"]), ("3-tuple", ["(a;b;c)"]), ("int", []), (None, []), ("string", ['say "hi"', "it's", "[br]"]), ("string", ["100%", "%%d"]), ("string", ["next\x85line", "sep\u2028arator", "nb\xa0sp"]),
 ]
-TEXTS = ["plain", "  surrounded by space \n", "<tag> & \"quote\"", "ünï", "yes", "12", None, "50%% of 10% %s"]
+TEXTS = ["plain", "  surrounded by space \n", "<tag> & \"quote\"", "ünï", "yes", "12", None, "50%% of 10% %s",
+         "two  blanks\tand a\nline break, NEL \x85 and LS \u2028 inside"]
 
 
 def mk(variant, salt=0):
     def f(h, k, st):
         n = (int(h[1:]) if h[1:].isdigit() else 0) + variant + salt
         if k == "doc":
-            return odml.Document(author=TEXTS[(n % 8) if n % 8 != 6 else 0], version=TEXTS[(n + 1) % 8], date=[None, dt.date(2020, 1, 1 + n % 27), dt.date(321, 2, 3)][n % 3])
+            return odml.Document(author=TEXTS[(n % 9) if n % 9 != 6 else 0], version=TEXTS[(n + 1) % 9], date=[None, dt.date(2020, 1, 1 + n % 27), dt.date(321, 2, 3)][n % 3])
         if k == "sec":
-            return odml.Section(name=st["name"][h], type=["t", "a/b", " spaced type "][n % 3], definition=TEXTS[n % 8],
-                                reference=TEXTS[(n + 3) % 8], sec_cardinality=CARDS[n % 9], prop_cardinality=CARDS[(n + 2) % 9])
+            sec = odml.Section(name=st["name"][h], type=["t", "a/b", " spaced type "][n % 3], definition=TEXTS[n % 9],
+                               reference=TEXTS[(n + 3) % 9], sec_cardinality=CARDS[n % 9], prop_cardinality=CARDS[(n + 2) % 9])
+            if n % 7 == 4:
+                del sec.definition          # the one deleter of the public API: the attribute is gone, not None
+            return sec
         if k == "prop":
             d, v = PV[(n * 5 + variant) % len(PV)]
             return odml.Property(name=st["name"][h], dtype=d, values=list(v), unit=[None, "mV", " µm "][n % 3],
-                                 uncertainty=[None, 0, 0.5, 12][n % 4], definition=TEXTS[(n + 1) % 8], reference=TEXTS[(n + 2) % 8],
+                                 uncertainty=[None, 0, 0.5, 12][n % 4], definition=TEXTS[(n + 1) % 9], reference=TEXTS[(n + 2) % 9],
                                  dependency=[None, "other"][n % 2], dependency_value=[None, "val"][n % 2],
-                                 value_origin=TEXTS[(n + 4) % 8], val_cardinality=CARDS[(n + 1) % 9])
+                                 value_origin=TEXTS[(n + 4) % 9], val_cardinality=CARDS[(n + 1) % 9])
         return None
     return f
 
@@ -230,7 +234,7 @@ def foreign_xml(doc):
     put(root, "id", doc.id); put(root, "author", doc.author); put(root, "version", doc.version); put(root, "date", doc.date)
     def sec(parent, s):
         e = ET.SubElement(parent, "section")
-        put(e, "id", s.id); put(e, "name", s.name); put(e, "type", s.type); put(e, "definition", s.definition); put(e, "reference", s.reference)
+        put(e, "id", s.id); put(e, "name", s.name); put(e, "type", s.type); put(e, "definition", getattr(s, "definition", None)); put(e, "reference", s.reference)
         if s.sec_cardinality: put(e, "sec_cardinality", _card(s.sec_cardinality))
         if s.prop_cardinality: put(e, "prop_cardinality", _card(s.prop_cardinality))
         for p in s.properties:
@@ -253,7 +257,7 @@ def foreign_dict(doc):
     def sec(s):
         e = {"id": s.id, "name": s.name, "type": s.type}
         for k in ("definition", "reference"):
-            if getattr(s, k) is not None: e[k] = getattr(s, k)
+            if getattr(s, k, None) is not None: e[k] = getattr(s, k)
         if s.sec_cardinality: e["sec_cardinality"] = list(s.sec_cardinality)
         if s.prop_cardinality: e["prop_cardinality"] = list(s.prop_cardinality)
         props = []
